@@ -32,6 +32,19 @@ impl Formatter for NextLineBreakRemover {
     fn format(&self, content: &str, byte_pos: usize) -> (usize, usize) {
         let bytes = content.as_bytes();
 
+        // Blank lines below are only merged if the removal leaves its own line empty: the part of
+        // the line in front of the removal position must be blank.
+        let line_is_blank = bytes
+            .get(..byte_pos)
+            .unwrap_or_default()
+            .iter()
+            .rev()
+            .take_while(|b| **b != b'\n')
+            .all(|b| *b == b' ' || *b == b'\t');
+        if !line_is_blank {
+            return (byte_pos, byte_pos);
+        }
+
         let line_break_pos = find_next_line_break_pos(content, bytes, byte_pos, true)
             .and_then(|pos| find_next_line_break_pos(content, bytes, pos + 1, true));
 
